@@ -526,6 +526,8 @@ func (t *tr) call(b *block, c *ast.CallExpr) string {
 			return "(" + recv + " " + op + " " + args[0] + ")"
 		}
 		switch m {
+		case "IsNil":
+			return "False" // a LegacyDec / Int read from a stored record is never nil (assumption, stated in the evidence)
 		case "IsZero":
 			return "(" + recv + " = 0)"
 		case "IsNegative":
@@ -732,6 +734,30 @@ func (t *tr) ret(b *block, r *ast.ReturnStmt, pending string) {
 	} else {
 		b.add("pure (" + strings.Join(vals, ", ") + ")")
 	}
+}
+
+// hasReturn: a return other than the `if err != nil { return …, err }` that follows a call (those are part of the call's translation)
+func hasReturn(s []ast.Stmt) bool {
+	found := false
+	for _, st := range s {
+		ast.Inspect(st, func(n ast.Node) bool {
+			if _, ok := n.(*ast.ReturnStmt); ok {
+				found = true
+			}
+			if is, ok := n.(*ast.IfStmt); ok {
+				if be, ok := is.Cond.(*ast.BinaryExpr); ok && be.Op == token.NEQ && isNil(be.Y) {
+					if id, ok := be.X.(*ast.Ident); ok && (id.Name == "err" || strings.HasSuffix(id.Name, "Err")) {
+						return false
+					}
+				}
+			}
+			if _, ok := n.(*ast.FuncLit); ok {
+				return false
+			}
+			return !found
+		})
+	}
+	return found
 }
 
 func terminates(s []ast.Stmt) bool {
@@ -979,8 +1005,19 @@ func (t *tr) stmts(list []ast.Stmt, tail []string) []string {
 					t.f.alias[id.Name] = x.Rhs[j] // `params := k.GetParams(ctx)`: an alias, expanded in the table of free terms
 					continue
 				}
+				if kindOf(t.typeOf(x.Lhs[j])) == kBool {
+					v := t.expr(b, x.Rhs[j])
+					if v != "true" && v != "false" {
+						v = "decide " + v
+					}
+					b.add(fmt.Sprintf("let %s : Bool := %s", ident(id.Name), v))
+					continue
+				}
 				b.add(fmt.Sprintf("let %s := %s", ident(id.Name), t.expr(b, x.Rhs[j])))
 			}
+		case *ast.DeferStmt:
+			// `defer func() { recover() … }()`: a panic guard; panics are explicit `.error` outcomes of the translation
+			t.f.skipped = append(t.f.skipped, "defer")
 		case *ast.IfStmt:
 			if x.Init != nil {
 				t.bad(x, "if with init statement")
@@ -1009,6 +1046,13 @@ func (t *tr) stmts(list []ast.Stmt, tail []string) []string {
 				b.lines = append(b.lines, indent(t.stmts(append(append([]ast.Stmt{}, x.Body.List...), rest...), tail), "  ")...)
 				b.add("else do")
 				b.lines = append(b.lines, indent(t.stmts(elseList, nil), "  ")...)
+				return b.lines
+			case hasReturn(x.Body.List) || hasReturn(elseList):
+				// a branch may return early and otherwise falls through: the rest of the block is the continuation of BOTH branches
+				b.add("if " + cond + " then do")
+				b.lines = append(b.lines, indent(t.stmts(append(append([]ast.Stmt{}, x.Body.List...), rest...), tail), "  ")...)
+				b.add("else do")
+				b.lines = append(b.lines, indent(t.stmts(append(append([]ast.Stmt{}, elseList...), rest...), tail), "  ")...)
 				return b.lines
 			default:
 				// assignment-only bodies: join the assigned variables
@@ -1355,6 +1399,7 @@ func main() {
 		}
 	}
 	b.WriteString("]\n\n")
+	b.WriteString("/-- the skipped calls of one function. -/\ndef skippedOf (f : String) : List String := (skippedCalls.filter (fun t => t.1 == f)).map (fun t => t.2)\n\n")
 	b.WriteString("/-- the free terms of one function. -/\ndef freeOf (f : String) : List String := (freeTerms.filter (fun t => t.1 == f)).map (fun t => t.2.2)\n\n")
 	b.WriteString("/-- the functions translated, in order. -/\ndef translated : List String := [" + strings.Join(names, ", ") + "]\n\nend Elys.Gen.Arith\n")
 	if err := os.WriteFile(*out+"/Table.lean", []byte(b.String()), 0o644); err != nil {
